@@ -32,6 +32,51 @@ Theorem C11_same_fit_input : forall img fl sd inside,
   obs_region img fl sd inside = filter (fun o => touches inside (snd (fst o))) (obs img fl sd).
 Proof. exact region_same_obs. Qed.
 
+(* ---------- non-vacuity: the image of Props/C02.v (islands A = {(0,0),(1,1)}, C = {(3,1),(3,2)};
+   group B = {(0,4),(1,4)} has no seed; (0,2) is NaN) with regions given on FITS pixels ---------- *)
+Definition ex_px (i : Z) : pixel := mkPixel (Some i) (Some 0) (Some 1).
+Definition ex_nan : pixel := mkPixel None (Some 0) (Some 1).
+Definition ex_img : image :=
+  [[ex_px 10; ex_px 0;    ex_nan;     ex_px 1; ex_px 4];
+   [ex_px 0;  ex_px 3;    ex_px 0;    ex_px 0; ex_px 4];
+   [ex_px 0;  ex_px 0;    ex_px 0;    ex_px 0; ex_px 0];
+   [ex_px 2;  ex_px (-7); ex_px (-6); ex_px 0; ex_px 0]].
+Definition ex_fl : clip := mkClip 3 1.
+Definition ex_sd : clip := mkClip 5 1.
+Definition ex_A : list pix := [(1, 1); (0, 0)].
+Definition ex_C : list pix := [(3, 2); (3, 1)].
+(* the single FITS pixel x = 3, y = 4, i.e. array position (row 3, column 2), a pixel of C *)
+Definition ex_region (x y : Z) : bool := (x =? 3) && (y =? 4).
+(* FITS pixel x = 5, y = 1, i.e. array position (0, 4): a flood pixel of the unseeded group B *)
+Definition ex_region_B (x y : Z) : bool := (x =? 5) && (y =? 1).
+
+Example ex_rms_pos : rms_pos ex_img.
+Proof. apply rms_pos_check. vm_compute. reflexivity. Qed.
+Example ex_clip_ok : clip_ok ex_fl /\ clip_ok ex_sd.
+Proof. vm_compute. auto. Qed.
+Example ex_islands : islands ex_img ex_fl ex_sd = [ex_A; ex_C].
+Proof. vm_compute. reflexivity. Qed.
+Example ex_islands_region : islands_region ex_img ex_fl ex_sd ex_region = [ex_C].
+Proof. vm_compute. reflexivity. Qed.
+(* x is the column and y the row: the transposed region (x = 4, y = 3 -> array (2, 3)) keeps nothing *)
+Example ex_islands_region_transposed :
+  islands_region ex_img ex_fl ex_sd (fun x y => ex_region y x) = [].
+Proof. vm_compute. reflexivity. Qed.
+(* a region that only touches a group without seed pixel keeps nothing *)
+Example ex_islands_region_B : islands_region ex_img ex_fl ex_sd ex_region_B = [].
+Proof. vm_compute. reflexivity. Qed.
+Example ex_touches : touches ex_region ex_C = true /\ touches ex_region ex_A = false.
+Proof. vm_compute. auto. Qed.
+Example ex_obs_region : obs_region ex_img ex_fl ex_sd ex_region = [((3, 4, 1, 3), ex_C, [(3, 1); (3, 2)])].
+Proof. vm_compute. reflexivity. Qed.
+Example ex_kept_premises : In ex_C (islands ex_img ex_fl ex_sd) /\
+  exists p, In p ex_C /\ ex_region (snd p + 1) (fst p + 1) = true.
+Proof.
+  rewrite ex_islands. split; [right; left; reflexivity|]. exists (3, 2). split; [left|]; reflexivity.
+Qed.
+Example ex_kept : In ex_C (islands_region ex_img ex_fl ex_sd ex_region).
+Proof. apply C11_inside_kept; apply ex_kept_premises. Qed.
+
 Print Assumptions C11_filter.
 Print Assumptions C11_inside_kept.
 Print Assumptions C11_outside_dropped.
